@@ -86,7 +86,7 @@ impl<'a> Emitter<'a> {
 
     pub fn add_struct(&mut self, st: &ItemStruct, ss: &StructSpec) {
         let mut g = st.generics.clone();
-        let rw = TyRw { u: self.u };
+        let rw = TyRw { u: self.u, in_unit_ty: false };
         rw.rewrite_generics(&mut g);
         let name = &st.ident;
         let mut fields = vec![];
@@ -103,7 +103,7 @@ impl<'a> Emitter<'a> {
                 if let Some((_, t)) = ss.retype.iter().find(|(n, _)| fname == n) {
                     ty = syn::parse_str(t).expect("retype type");
                 } else {
-                    let mut rw2 = TyRw { u: self.u };
+                    let mut rw2 = TyRw { u: self.u, in_unit_ty: false };
                     rw2.visit_type_mut(&mut ty);
                 }
                 fields.push(quote!(pub #fname: #ty));
@@ -129,7 +129,7 @@ impl<'a> Emitter<'a> {
 
     pub fn add_enum(&mut self, en: &ItemEnum, es: &StructSpec) {
         let mut g = en.generics.clone();
-        let rw = TyRw { u: self.u };
+        let rw = TyRw { u: self.u, in_unit_ty: false };
         rw.rewrite_generics(&mut g);
         let name = &en.ident;
         let mut vars = vec![];
@@ -150,7 +150,7 @@ impl<'a> Emitter<'a> {
                         if let Some((_, t)) = es.retype.iter().find(|(n, _)| vn == n) {
                             ty = syn::parse_str(t).expect("retype type");
                         } else {
-                            let mut rw2 = TyRw { u: self.u };
+                            let mut rw2 = TyRw { u: self.u, in_unit_ty: false };
                             rw2.visit_type_mut(&mut ty);
                         }
                         tys.push(ty);
@@ -161,7 +161,7 @@ impl<'a> Emitter<'a> {
                     let mut fs = vec![];
                     for f in nf.named.iter() {
                         let mut ty = f.ty.clone();
-                        let mut rw2 = TyRw { u: self.u };
+                        let mut rw2 = TyRw { u: self.u, in_unit_ty: false };
                         rw2.visit_type_mut(&mut ty);
                         let n = f.ident.as_ref().unwrap();
                         fs.push(quote!(#n: #ty));
@@ -187,7 +187,7 @@ impl<'a> Emitter<'a> {
             sig.ident = Ident::new(r, proc_macro2::Span::call_site());
         }
         let stmts = &body.stmts;
-        let ts = quote!(pub #sig { __vx_fn!(#id); #(#stmts)* });
+        let ts = if fs.traitimpl.is_some() { quote!(#sig { __vx_fn!(#id); #(#stmts)* }) } else { quote!(pub #sig { __vx_fn!(#id); #(#stmts)* }) };
         let fo = FnOut {
             id: id.clone(),
             spec: fs.clone(),
@@ -201,13 +201,19 @@ impl<'a> Emitter<'a> {
         match (&ff.impl_generics, &ff.impl_self_ty) {
             (Some(g), Some(st)) => {
                 let mut g = g.clone();
-                let rw = TyRw { u: self.u };
+                let rw = TyRw { u: self.u, in_unit_ty: false };
                 rw.rewrite_generics(&mut g);
                 let mut st = st.clone();
-                let mut rw2 = TyRw { u: self.u };
+                let mut rw2 = TyRw { u: self.u, in_unit_ty: false };
                 rw2.visit_type_mut(&mut st);
                 let (ig, _, wc) = g.split_for_impl();
-                let header = quote!(impl #ig #st #wc).to_string();
+                let header = match &fs.traitimpl {
+                    Some(tr) => {
+                        let trp: Path = syn::parse_str(tr).expect("traitimpl path");
+                        quote!(impl #ig #trp for #st #wc).to_string()
+                    }
+                    None => quote!(impl #ig #st #wc).to_string(),
+                };
                 if let Some(e) = self.impls.iter_mut().find(|(k, _, _)| *k == header) {
                     e.2.push(fo);
                 } else {
@@ -315,8 +321,12 @@ impl<'a> Emitter<'a> {
                 // name the return value
                 let sig = name_return(&sig, f.spec.ret_name.as_deref().unwrap_or("res"));
                 out.push(format!("{}// @fn {} {}:{}-{}", sig_indent, f.id, f.src_path, f.line_start, f.line_end));
-                out.push(format!("{}#[verifier::loop_isolation(false)]", sig_indent));
-                out.push(format!("{}#[verifier::allow_complex_invariants]", sig_indent));
+                if !f.spec.attrs.iter().any(|a| a.contains("loop_isolation")) {
+                    out.push(format!("{}#[verifier::loop_isolation(false)]", sig_indent));
+                }
+                if !f.spec.attrs.iter().any(|a| a.contains("loop_isolation(true)")) {
+                    out.push(format!("{}#[verifier::allow_complex_invariants]", sig_indent));
+                }
                 out.push(format!("{}#[verifier::exec_allows_no_decreases_clause]", sig_indent));
                 for a in f.spec.attrs.iter().filter(|a| a.starts_with("#[")) {
                     out.push(format!("{}{}", sig_indent, a));
@@ -383,6 +393,7 @@ impl<'a> Emitter<'a> {
                 let tail: Vec<String> = out.drain(k + 1..).collect();
                 out.push(format!("{}    // @loop {}", hindent, n));
                 if let Some(ls) = f.spec.loops.get(&n) {
+                    self.render_clauses("invariant_except_break", &ls.invariant_except_break, &format!("{}    ", hindent), &mut out, &f.poolstr);
                     self.render_clauses("invariant", &ls.invariant, &format!("{}    ", hindent), &mut out, &f.poolstr);
                     self.render_clauses("ensures", &ls.ensures, &format!("{}    ", hindent), &mut out, &f.poolstr);
                     if let Some(d) = &ls.decreases {
@@ -390,6 +401,9 @@ impl<'a> Emitter<'a> {
                     }
                 }
                 out.push(format!("{}{{", hindent));
+                if let Some(ls) = f.spec.loops.get(&n) {
+                    self.render_ghost(&ls.body, &format!("{}    ", hindent), &mut out, &f.poolstr);
+                }
                 out.extend(tail);
                 continue;
             }
@@ -407,6 +421,7 @@ impl<'a> Emitter<'a> {
         text.push("#![allow(unused_imports, unused_variables, unused_mut, dead_code, unused_assignments, unreachable_code, non_snake_case, unused_parens, unused_braces)]".to_string());
         text.push("use vstd::prelude::*;".to_string());
         text.push("use std::collections::VecDeque;".to_string());
+        text.push("use vstd::std_specs::convert::*;".to_string());
         text.push("verus! {".to_string());
         for inc in self.u.includes.iter() {
             let p = format!("{}/{}", self.verif, inc);
@@ -464,7 +479,7 @@ impl<'a> Emitter<'a> {
                 .requires
                 .iter()
                 .chain(f.spec.ensures.iter())
-                .chain(f.spec.loops.values().flat_map(|l| l.invariant.iter().chain(l.ensures.iter())))
+                .chain(f.spec.loops.values().flat_map(|l| l.invariant.iter().chain(l.invariant_except_break.iter()).chain(l.ensures.iter())))
                 .filter(|c| variant_ok(&c.variants, &self.variant))
                 .filter_map(|c| c.label.clone())
                 .map(|l| json_str(&l))
